@@ -10,7 +10,7 @@ from mc.coma import (AlignmentSegmentsFactory, ScoredAlignedPair, AlignedPair, S
                      NotAlignedReferencePosition, NotAlignedQueryPosition, PositionWithSiteId as P, Peak)
 
 RULE = ("all sequences of scored positions up to the length bound over the alphabet {pair:+3,+2,+1,0,-1; unpaired:0,-1,-3} x 16 "
-        "(minScore, breakSegmentThreshold) pairs; non-trivial = a case in which a running sum hits a threshold equality "
+        "(minScore, breakSegmentThreshold) pairs; plus two-call sequences on one factory (first call: every sequence of length <= 2); non-trivial = a case in which a running sum hits a threshold equality "
         "(== minScore, == running max - break, == 0), or a run is rejected for minScore, or >= 2 segments are produced; "
         "distinct by (thresholds, sequence)")
 ASSUMPTIONS = ["scores are small integers or multiples of 1/8 (sums are exact in binary floating point); scores that are not exactly representable are outside the alphabet",
@@ -124,12 +124,16 @@ def clauses(s, syms, positions, segs, spans, ms, bs):
     return bad
 
 
-@core.guarded(lambda syms, ms, bs, *a, **k: dict(symbols=[list(x) for x in syms], minScore=ms, breakSegmentThreshold=bs))
-def check_case(syms, ms, bs, acc, positions=None):
+@core.guarded(lambda syms, ms, bs, acc=None, positions=None, before=None: dict(symbols=[list(x) for x in syms], minScore=ms, breakSegmentThreshold=bs, before=[list(x) for x in before] if before is not None else None))
+def check_case(syms, ms, bs, acc, positions=None, before=None):
     s = [v for _, v in syms]
     if positions is None:
         positions = [make_position(k, sym) for k, sym in enumerate(syms)]
-    segs = AlignmentSegmentsFactory(ms, bs).getSegments(list(positions), PEAK)
+    factory = AlignmentSegmentsFactory(ms, bs)
+    if before is not None:
+        # operation sequence: an earlier getSegments call (another peak) on the SAME factory - the aligner keeps one per run
+        factory.getSegments([make_position(k, sym) for k, sym in enumerate(before)], Peak(5, 2.0))
+    segs = factory.getSegments(list(positions), PEAK)
     spans = observe(positions, segs)
     exp, eq, rejected = reference(s, ms, bs)
     got = [x for x in spans if x is not None]
@@ -151,7 +155,7 @@ def check_case(syms, ms, bs, acc, positions=None):
             acc.classes['run-rejected-for-minScore'] += 1
         if eq:
             acc.classes['threshold-equality-hit'] += 1
-        case = dict(symbols=[list(x) for x in syms], minScore=ms, breakSegmentThreshold=bs)
+        case = dict(symbols=[list(x) for x in syms], minScore=ms, breakSegmentThreshold=bs, before=[list(x) for x in before] if before is not None else None)
         for f in found:
             acc.viol(f[0], case, f[1], f[2], f[3])
         acc.sample(case)
@@ -191,7 +195,8 @@ class SeqLayer(core.Layer):
                 check_case(pre + list(tail), ms, bs, acc)
 
     def replay(self, case):
-        return check_case([tuple(x) for x in case['symbols']], case['minScore'], case['breakSegmentThreshold'], None)
+        return check_case([tuple(x) for x in case['symbols']], case['minScore'], case['breakSegmentThreshold'], None, None,
+                          [tuple(x) for x in case['before']] if case.get('before') is not None else None)
 
 
 class Dyadic(SeqLayer):
@@ -225,7 +230,28 @@ class Dyadic(SeqLayer):
                 check_case(pre + list(tail), ms, bs, acc)
 
 
+class TwoCalls(SeqLayer):
+    """two getSegments calls on ONE factory: every sequence of length <= 2 as first call x every sequence of length <= maxlen as second"""
+
+    def __init__(self, name, maxlen, optional=False):
+        SeqLayer.__init__(self, name, maxlen, optional=optional)
+        self.firsts = [list(t) for n in (0, 1, 2) for t in itertools.product(ALPHABET, repeat=n)]
+        self.bounds = dict(self.bounds, calls_per_factory=2, first_call_max_length=2)
+        self.rule = '%d first calls x all sequences of length 0..%d as second call x %d threshold pairs, on one factory' % (len(self.firsts), maxlen, len(THRESHOLDS))
+
+    def nblocks(self):
+        return len(THRESHOLDS) * len(self.firsts)
+
+    def run_block(self, b, acc):
+        ms, bs = THRESHOLDS[b // len(self.firsts)]
+        before = self.firsts[b % len(self.firsts)]
+        for L in range(0, self.maxlen + 1):
+            for seq in itertools.product(ALPHABET, repeat=L):
+                acc.seq += 1
+                check_case(list(seq), ms, bs, acc, None, before)
+
+
 def layers(tier, seed):
     if tier == 'quick':
-        return [SeqLayer('L<=6', 6), Dyadic('dyadic,L<=6', 6)]
-    return [SeqLayer('L<=6', 6), Dyadic('dyadic,L<=7', 7), SeqLayer('L=7', 7, minlen=7), SeqLayer('L=8', 8, minlen=8, optional=True)]
+        return [SeqLayer('L<=6', 6), Dyadic('dyadic,L<=6', 6), TwoCalls('seq2:L<=3', 3)]
+    return [SeqLayer('L<=6', 6), Dyadic('dyadic,L<=7', 7), TwoCalls('seq2:L<=4', 4), SeqLayer('L=7', 7, minlen=7), SeqLayer('L=8', 8, minlen=8, optional=True)]
